@@ -8,6 +8,7 @@ import (
 	"github.com/youchainhq/go-youchain/common"
 	"github.com/youchainhq/go-youchain/core/state"
 	"github.com/youchainhq/go-youchain/core/types"
+	"github.com/youchainhq/go-youchain/crypto"
 	"github.com/youchainhq/go-youchain/params"
 	"verif/harness/drive"
 	"verif/harness/fixture"
@@ -113,6 +114,9 @@ func (w *world) apply(op *Op) (res map[string]interface{}) {
 	case "AddLog":
 		w.nlog++
 		st.AddLog(&types.Log{Address: w.accts[1].Addr, Data: []byte{byte(w.nlog)}})
+	case "AddPreimage":
+		b := []byte{byte(op.V)}
+		st.AddPreimage(crypto.Keccak256Hash(b), b)
 	case "AddRefund":
 		st.AddRefund(uint64(op.V))
 	case "SubRefund":
@@ -227,6 +231,7 @@ func (w *world) abstract(p *fixture.StateProj) map[string]interface{} {
 		wq = append(wq, int64(r.Nonce))
 	}
 	m["wq"] = wq
+	m["pre"] = p.Pre
 	m["refund"] = p.Refund
 	m["logs"] = p.Logs
 	return m
